@@ -35,4 +35,13 @@ Inv ==
       \A q \in Strings :
         /\ GetIDB(m, q) = ModelGetID(keys, nodes, o, q)
         /\ SearchIDB(m, q) = [x \in 1..3 |-> LET y == SearchIDm(keys, nodes, o, q)[x] IN IF y = -1 THEN -1 ELSE y - 1]
+        \* scans need complete keys: on the stored form they yield the Model's keys, leaves and values
+        /\ (o.innp /\ o.leafp) =>
+             \A incl \in BOOLEAN :
+               LET sb == ScanB(m, q, incl)
+                   ms == ModelScan(keys, nodes, o, q, incl) IN
+               /\ Len(sb) = Len(ms)
+               /\ \A x \in 1..Len(ms) :
+                    /\ sb[x].key = ms[x].key /\ sb[x].leaf = ms[x].leaf - 1
+                    /\ sb[x].val = vals[nodes[ms[x].leaf].key]
 =============================================================================
